@@ -13,9 +13,9 @@ package sched
 import (
 	"fmt"
 	"os"
-	"strconv"
 	"reflect"
 	"sort"
+	"strconv"
 	"strings"
 	"sync"
 	"time"
